@@ -718,12 +718,21 @@ class Interp:
             raise Unsupported("recursion depth")
         fr = Frame(fn, owner)
         self.bind_args(node, fn, fr, args, kwargs)
+        # a generator function called from interpreted code is run eagerly: its value is the
+        # list of what it yields (generators of the code under contract are finite and are
+        # consumed completely by a for loop)
+        nested_gen = bool(self.frames) and inspect.isgeneratorfunction(fn)
+        y0 = len(self.ghost.get("yielded", []))
         self.frames.append(fr)
         try:
             try:
                 self.exec_block(node.body, fr)
             except _Return as r:
-                return r.value
+                if not nested_gen:
+                    return r.value
+            if nested_gen:
+                from .values import VList
+                return VList(list(self.ghost.get("yielded", [])[y0:]))
             return NONE
         finally:
             self.frames.pop()
